@@ -85,7 +85,39 @@ pub const VALID_EXPRS: &[&str] = &[
     "<math><msup><mi>a</mi><mn>23</mn></msup><mo>&#x2212;</mo><mroot><mn>2</mn><mn>12</mn></mroot><mo>+</mo><mfrac><mn>1</mn><mn>100</mn></mfrac><mo>+</mo><msup><mi>z</mi><mn>101</mn></msup></math>",
     // 63: numbers with more digits than a machine integer holds, in the places where number words are made
     "<math><mfrac><mn>1</mn><mn>100000000000000000000000</mn></mfrac><mo>+</mo><msup><mi>x</mi><mn>340282366920938463463374607431768211456</mn></msup><mo>+</mo><mroot><mi>y</mi><mn>99999999999999999999999999</mn></mroot><mo>+</mo><mn>0.00000000000000000000000000000000000001</mn></math>",
+    // 64 (REGRESSION_FROM): minimised expressions of repaired defects
+    "<math><mo>|</mo><mo>)</mo></math>",
+    "<math><mi>a</mi><mo>+</mo><mfenced open='|'/></math>",
+    "<math><mmultiscripts><mi>x</mi></mmultiscripts><mo>+</mo><mmultiscripts><mi>y</mi><none/><none/></mmultiscripts></math>",
+    "<math><mmultiscripts><mrow/></mmultiscripts></math>",
+    "<math><mi>a</mi><mmultiscripts><mtext> </mtext></mmultiscripts></math>",
+    "<math><mmultiscripts><mtable><mtd><mi>i</mi><mi>n</mi><mi>x</mi><mi>a</mi></mtd></mtable></mmultiscripts><mi>H</mi></math>",
+    "<math><mi mathvariant='sans-serif'>XIV</mi><mo>+</mo><mn mathvariant='monospace'>XIV</mn></math>",
+    "<math><msubsup><mrow intent='_($p,$q)'><mrow/></mrow><mn>&#xBD;</mn><mn>&#xBD;</mn></msubsup></math>",
+    "<math><msub><mi></mi><mrow intent='power($p,$q)'><mrow/></mrow></msub></math>",
+    "<math><msqrt><mi>f</mi><mrow intent='binomial($p,$q)'><mrow/></mrow></msqrt></math>",
+    "<math><msub><mrow><mn>2</mn><mn>10</mn><mn>-0.5</mn><mi>x</mi></mrow><mi>x</mi></msub></math>",
+    "<math><mfrac><mstyle><mo>/</mo><mrow/></mstyle><mspace/></mfrac></math>",
+    "<math><msubsup id='s'><mi id='x1'>log</mi><mn id='n'>30</mn><mtext>&#xA0;</mtext></msubsup></math>",
+    "<math><mrow><mi>&#x3B1;</mi><mn id='n'>-2</mn></mrow><mo>+</mo><mn id='m'>&#x2212;3</mn></math>",
+    "<math><mfenced><mi>k</mi><none/></mfenced></math>",
+    "<math><mfenced><mi>z</mi><mrow intent='_($p,$q)'><mo>&#x221A;</mo></mrow></mfenced></math>",
+    "<math><mi>x</mi><mover><mrow/><mo>_</mo></mover><mo>]</mo></math>",
+    "<math><mrow><mi>H</mi><mn>1</mn><mn>234</mn><mo>.</mo><mn>5</mn><mo>)</mo><mi>x</mi></mrow></math>",
+    "<math><mn>14</mn><mn>3</mn><mrow><mn id='n'>5</mn><mo>)</mo></mrow><mi>x</mi></math>",
+    "<math><mrow><mo>&#x2062;</mo><mrow intent='$p'><mo>*</mo></mrow></mrow></math>",
+    "<math><mn mathvariant=\"bold\">43</mn><mn mathvariant=\"bold\">56</mn></math>",
+    "<math><mrow id='r'><mspace/><mn id='n'>2.5</mn></mrow><mo>+</mo><mpadded id='p'><mspace/><mi id='d'>dx</mi></mpadded></math>",
+    "<math><msub><mrow/><mi>C</mi></msub><msup><msqrt/><mi id='a'>a</mi></msup><mi>&#x3B2;</mi></math>",
+    "<math><mi>&#x1D63C;</mi><mo>,</mo><mi>&#x1D655;</mi></math>",
+    "<math><mn>2</mn><mi intent=':silent'>x</mi></math>",
+    "<math><mn mathvariant='sans-serif'>2</mn><mo>+</mo><mn>&#x1D7E4;</mn></math>",
 ];
+
+/// First index of the regression section of VALID_EXPRS: the minimised expressions of defects that were found on the
+/// unchanged tree (by generated expressions, other seeds, the thorough tiers) and repaired. They stay in the pool so that
+/// the quick tier of seed 1 exercises them by design, not by luck (see scripts/sensitivity.sh fixes).
+pub const REGRESSION_FROM: usize = 64;
 
 /// documented values of the ClearSpeak preferences (comments of Rules/prefs.yaml); "Auto" is the default of all but one
 pub const CLEARSPEAK_VALUES: &[(&str, &[&str])] = &[
